@@ -887,6 +887,7 @@ func c05mTest(t *testing.T, v1 bool) {
 	cfgs, ndir, nfree := c05mCfgs(v1)
 	outPath := filepath.Join(t.TempDir(), "events.log")
 	aborts := 0
+	retried := map[int]bool{}
 	results := map[int]*c05mResult{}
 	t0 := time.Now()
 	budget := time.Duration(vg.Scale(90, 3600)) * time.Second // restarts after aborts stop here
@@ -917,6 +918,17 @@ func c05mTest(t *testing.T, v1 bool) {
 			t.Fatalf("child failed before the first case: %v\n%s", err, outb)
 		}
 		if r := results[last]; !r.complete {
+			if !retried[last] {
+				// a run that died is played once more before it is recorded as aborted: the socket
+				// ABCI client has a shutdown race of its own (flushQueue and didRecvResponse can both
+				// call Done on one request: "sync: negative WaitGroup counter") that has nothing to do
+				// with the schedule under test; an abort that the history itself causes comes back
+				retried[last] = true
+				cs.Count("aborted-once-replayed: "+why, 1)
+				from = last
+				aborts--
+				continue
+			}
 			f, _ := os.OpenFile(outPath, os.O_APPEND|os.O_WRONLY, 0o644)
 			fmt.Fprintf(f, "A %s\nEND %d aborted\n", why, last)
 			f.Close()
